@@ -40,14 +40,7 @@ def strategy(tier):
         if draw(st.integers(0, 5)) == 0:
             # sparse containers whose value template is a Count with a transform: bins taken over from b must follow
             # a's declaration (b may well be declared with plain counts, or come back from JSON)
-            hit = False
-            for _, node in list(walk_spec(spec)):
-                if node["k"] in ("Categorize", "SparselyBin") and node["value"]["k"] == "Count":
-                    node["value"] = {"k": "Count", "transform": draw(st.sampled_from(("sq", "half")))}
-                    hit = True
-            if not hit:
-                extra = {"k": "Categorize", "q": {"t": "cat", "col": "s", "fl": "lambda"}, "value": {"k": "Count", "transform": draw(st.sampled_from(("sq", "half")))}}
-                spec = {"k": "UntypedLabel", "pairs": {"main": spec, "extra": extra}}
+            spec = draw(gen.with_transform_templates(spec))
         ra = draw(gen.recipes(spec, max_rows=12, reload_ok=True, focus=focus))
         rb = draw(gen.recipes(spec, max_rows=12, reload_ok=True, focus=focus))
         xa, _ = draw(gen.streams(spec, max_rows=5, focus=focus))
